@@ -82,7 +82,7 @@ def jobs(pid, tier):
                     vrt('C11', [r'pool_w[12]_(coawait|runfn|runfnbig|detached|detachedbig|current)_(stop|selfstop)', r'pool_w2_(coawait-runfn|runfnbig-detached)_stop',
                                  r'pool_w[12]_(coawait|runfn|detached)_racestop'], bound=2, workers=2, **R),
                     vrt('C12', [r'sch_(thread|pool)_(5-10|10-5)(_cancel0)?'], bound=2, workers=4, **R),
-                    vrt('C16', [r'pub1_.*', r'pub2_all_(coro-block|coro-poll)_pub-batch2-close', r'pubmt1_.*', r'pubmt2_coro-coro', r'pubcopy_.*'], bound=2, workers=4, **R),
+                    vrt('C16', [r'pub1_.*', r'pub2_all_(coro-block|coro-poll)_pub-batch2-close', r'pubmt1_.*', r'pubmt2_coro-coro', r'pubcopy_.*', r'pubbound_.*'], bound=2, workers=4, **R),
                     vrt('C17', [r'sf1_.*', r'sf2_promfn_val_(wait-coro|coro-drop|copydrop-poll)_.*'], bound=2, workers=2, **R),
                     vrt('C19', [r'mtsafe_t2_.*'], bound=2, workers=4, **R),
                     vrt('C04', [r'async_.*_d[12](_throw)?'], bound=2, workers=2, **R),
@@ -96,7 +96,7 @@ def jobs(pid, tier):
                 vrt('C09', [r'q_p1_.*', r'q_p2_c1_.*', r'lq_.*', r'q_observer_.*'], bound=3, workers=8, **R),
                 vrt('C11', [r'pool_w[12]_(coawait|runfn|runfnbig|detached|detachedbig|current)(-(coawait|runfn|runfnbig|detached|detachedbig|current))?_(stop|dtor|selfstop|racestop)'], bound=2, workers=8, **R),
                 vrt('C12', [r'sch_.*'], bound=2, workers=8, **R),
-                vrt('C16', [r'pub1_.*', r'pub2_(?!.*poll-poll).*', r'pubmt.*', r'pubcopy_.*'], bound=2, workers=8, **R),
+                vrt('C16', [r'pub1_.*', r'pub2_(?!.*poll-poll).*', r'pubmt.*', r'pubcopy_.*', r'pubbound_.*'], bound=2, workers=8, **R),
                 vrt('C17', [r'sf.*'], bound=2, workers=8, **R),
                 vrt('C19', [r'mtsafe_.*'], bound=3, workers=8, **R),
                 vrt('C04', [r'async_.*'], bound=3, workers=4, **R),
@@ -167,9 +167,9 @@ def jobs(pid, tier):
         return [seq('C12'), vrt('C12', [r'sch_.*'], bound=3, workers=8), vrt('C12', [r'sch_.*'], bound=2, workers=8, spurious=True)]
     if pid == 'C16':
         if q:
-            return [seq('C16'), vrt('C16', [r'pub1_.*', r'pubmt1_.*', r'pubmt2_coro-coro', r'pubcopy_.*'], bound=2, workers=2),
+            return [seq('C16'), vrt('C16', [r'pub1_.*', r'pubmt1_.*', r'pubmt2_coro-coro', r'pubcopy_.*', r'pubbound_.*'], bound=2, workers=2),
                     vrt('C16', [r'pub2_all_(coro-block|coro-coro|block-poll)_pub-batch2-close', r'pub2_recent_coro-block_pub-pub-close'], bound=2, workers=8)]
-        return [seq('C16'), vrt('C16', [r'pub1_.*', r'pubmt1_.*'], bound=3, workers=2), vrt('C16', [r'pub2_(?!.*poll-poll).*', r'pubmt2_.*'], bound=2, workers=8)]
+        return [seq('C16'), vrt('C16', [r'pub1_.*', r'pubmt1_.*', r'pubbound_.*'], bound=3, workers=2), vrt('C16', [r'pub2_(?!.*poll-poll).*', r'pubmt2_.*'], bound=2, workers=8)]
     if pid == 'C06':
         return [seq('C06')]
     if pid == 'RACEALL':
